@@ -1,0 +1,15 @@
+//go:build verif
+
+package sqlittle
+
+import (
+	sdb "github.com/alicebob/sqlittle/db"
+)
+
+// VerifWrap makes a DB from a low level Database, so the verification harness
+// can run the high level API over its own pager. Compiled only with
+// `-tags verif`.
+func VerifWrap(db *sdb.Database) *DB { return &DB{db: db} }
+
+// VerifDatabase gives the low level Database under a DB.
+func VerifDatabase(db *DB) *sdb.Database { return db.db }
